@@ -15,7 +15,7 @@ Local Open Scope N_scope.
 
 (* ---- all conjuncts of the quantifier ---------------------------------------------------------- *)
 Record quantified (e : entity) : Prop := mkQd {
-  q_enums : decl_enums_ok e = true;
+  q_enums : sp_enums_ok e = true;
   q_name : name_ok (e_name e) = true;
   q_pkg : pkg_ok (e_pkg e) = true;
   q_base : (is_nil (e_base_url e) || (rel_path_ok (e_base_url e) && is_nil (colon_params (e_base_url e)))) = true;
@@ -80,15 +80,13 @@ Proof.
     + destruct H as [<-|H]; [apply has_prefix_app|]. apply in_map_iff in H. destruct H as [o [<- _]]. apply sp_value_name_prefix.
 Qed.
 
-(* the status values are pairwise distinct because their protobuf canonical names are (decl_enums_ok) *)
-Lemma status_values_nodup : forall e, decl_enums_ok e = true ->
+(* the status values are pairwise distinct because their protobuf canonical names are (sp_enums_ok) *)
+Lemma status_values_nodup : forall e, sp_enums_ok e = true ->
   NoDup (sp_enum_values_n (sp_status_prefix e) (e_status e) (sp_first_number e)).
 Proof.
-  intros e H. unfold decl_enums_ok in H. apply andb_true_iff in H. destruct H as [H _].
-  unfold client_accepts in H. cbn [forallb] in H. apply andb_true_iff in H. destruct H as [H _].
-  unfold status_enum, enum_accepts in H. apply nodup_bytes_NoDup in H.
-  rewrite <- (map_map fst (fun n => enum_value_name (trim_enum_prefix n (enum_prefix_of (component_name e (bs "Status")))))) in H.
-  apply NoDup_of_map in H. unfold entity_status_values in H. rewrite status_values_names_n in H. exact H.
+  intros e H. unfold sp_enums_ok in H. apply andb_true_iff in H. destruct H as [H _].
+  apply andb_true_iff in H. destruct H as [H _]. unfold sp_canonical_distinct in H.
+  apply nodup_bytes_NoDup in H. now apply NoDup_of_map in H.
 Qed.
 
 Lemma NoDup_insert_mid : forall {A} (a b c : list A),
@@ -103,7 +101,7 @@ Proof.
     + apply IH; [exact Hac'|exact Hb|]. intros y Hy. apply Hd. now right.
 Qed.
 
-Lemma generated_main_nodup : forall e, decl_enums_ok e = true -> NoDup (sp_main_generated e).
+Lemma generated_main_nodup : forall e, sp_enums_ok e = true -> NoDup (sp_main_generated e).
 Proof.
   intros e He. unfold sp_main_generated.
   set (vals := sp_enum_values_n (sp_status_prefix e) (e_status e) (sp_first_number e)).
@@ -159,7 +157,7 @@ Proof.
   intros x Hx Hin. exact (disjoint_bytes_spec _ _ Hd x Hin Hx).
 Qed.
 
-Theorem main_scope_distinct : forall e, decl_enums_ok e = true ->
+Theorem main_scope_distinct : forall e, sp_enums_ok e = true ->
   nodup_bytes (sp_main_user e) = true -> disjoint_bytes (sp_main_user e) (sp_main_generated e) = true ->
   nodup_bytes (sp_main_scope e) = true.
 Proof.
@@ -664,6 +662,54 @@ Lemma inline_enum_values_eq : forall n os,
 Proof.
   intros n os. rewrite status_values_names. unfold sp_inline_enum_values, sp_enum_values, sp_enum_values_n.
   destruct os as [|o r]; [reflexivity|]. rewrite andb_true_r. reflexivity.
+Qed.
+
+(* the spec's statement of "enum options are distinct names for protobuf" is the check the model of the converter
+   runs on the enums it builds *)
+Lemma forallb_ext_pt : forall {A} (f g : A -> bool) l, (forall x, f x = g x) -> forallb f l = forallb g l.
+Proof. intros A f g l H. induction l as [|a l IH]; [reflexivity|]. cbn. now rewrite H, IH. Qed.
+Lemma forallb_map_comp : forall {A B} (f : B -> bool) (g : A -> B) l, forallb f (map g l) = forallb (fun x => f (g x)) l.
+Proof. induction l as [|a l IH]; [reflexivity|]. cbn. now rewrite IH. Qed.
+
+Lemma enum_accepts_names : forall n vs, enum_accepts n vs = sp_canonical_distinct n (map fst vs).
+Proof. intros n vs. unfold enum_accepts, sp_canonical_distinct. now rewrite map_map. Qed.
+
+Lemma inline_enum_ok_eq : forall j c n k r q fl p te fi fo o fs os tr d kf,
+  inline_enum_ok (mkF13 j (inline_type c (to_camel n) k) r q fl p te fi fo o (Some (mkInl4 k fs os tr)) d kf)
+  = sp_inline_enum_ok n k os.
+Proof.
+  intros. unfold inline_enum_ok, sp_inline_enum_ok. rewrite inline_of_inline_type. cbn [il_kind il_options].
+  destruct (k =? 2); [|reflexivity]. now rewrite enum_accepts_names, inline_enum_values_eq.
+Qed.
+
+Lemma tfield_enums_ok_eq : forall t, tfield_enums_ok t = sp_tfield_enums_ok t.
+Proof.
+  fix IH 1. intros [n k r o d]. destruct k as [i|i|i|ik c fs os]; try reflexivity.
+  cbn [tfield_enums_ok sp_tfield_enums_ok of_tfield]. rewrite inline_enum_ok_eq. f_equal.
+  induction fs as [|t fs IHfs]; [reflexivity|]. cbn [forallb]. now rewrite IH, IHfs.
+Qed.
+
+Lemma ufield_enums_ok_eq : forall u, ufield_enums_ok u = sp_ufield_enums_ok u.
+Proof.
+  intros [n k r o d kf c]. unfold ufield_enums_ok, sp_ufield_enums_ok, of_ufield, tree_of. cbn [uf_kind uf_name uf_container uf_desc uf_required uf_optional uf_keyfmt].
+  destruct k as [pt j|m|m|m|p f t|tn j|i|i|sfs|sfs|os|tk tfs]; cbn [f_inline il_tree forallb andb];
+    try (unfold inline_enum_ok; rewrite inline_of_none by reflexivity; reflexivity).
+  - rewrite inline_enum_ok_eq. reflexivity.
+  - rewrite inline_enum_ok_eq. reflexivity.
+  - rewrite inline_enum_ok_eq, andb_true_r. reflexivity.
+  - rewrite inline_enum_ok_eq. f_equal.
+    induction tfs as [|t tfs IH]; [reflexivity|]. cbn [forallb]. now rewrite tfield_enums_ok_eq, IH.
+Qed.
+
+Theorem enums_ok_eq : forall e, sp_enums_ok e = decl_enums_ok e.
+Proof.
+  intros e. unfold sp_enums_ok, decl_enums_ok, client_accepts. cbn [forallb status_enum].
+  rewrite enum_accepts_names. unfold entity_status_values. rewrite status_values_names_n, cn_status.
+  change (first_status_number e) with (sp_first_number e). change (status_prefix e) with (sp_status_prefix e).
+  f_equal; [f_equal|].
+  - rewrite forallb_map_comp. apply forallb_ext_pt. intros [n fs|n fs|n os]; try reflexivity.
+    cbn [schema_component]. now rewrite enum_accepts_names, status_values_names.
+  - apply forallb_ext_pt. intros u. symmetry. apply ufield_enums_ok_eq.
 Qed.
 
 Lemma user_inline_names : forall fs, inline_names (map of_ufield fs) = sp_inline_names fs.
@@ -1541,7 +1587,7 @@ Proof.
   exists (expand_with e fl). unfold compile, compile_file. cbn [existsb].
   destruct (e_status e) as [|s0 sr] eqn:Es; [exfalso; exact (q_status_ne e Q Es)|]. cbn [is_nil orb].
   pose proof Hr as Hr'. rewrite reserved_free_split in Hr'. apply andb_true_iff in Hr'. destruct Hr' as [Hw Ho].
-  rewrite walk_all_single. unfold walk. rewrite Hw, (convert_expand _ _ Hc). cbn [forallb]. rewrite Ho, (q_enums e Q). cbn [andb].
+  rewrite walk_all_single. unfold walk. rewrite Hw, (convert_expand _ _ Hc). cbn [forallb]. rewrite Ho, <- enums_ok_eq, (q_enums e Q). cbn [andb].
   rewrite convert_all_single, Hc, app_nil_r, (link_accepts e fl Q Hr). reflexivity.
 Qed.
 
@@ -1756,7 +1802,7 @@ Proof.
   { apply forallb_forall. intros e He. rewrite Forall_forall in Hall. destruct (Hall e He) as [_ Hr].
     rewrite reserved_free_split in Hr. apply andb_true_iff in Hr. exact (proj2 Hr). }
   assert (He : forallb decl_enums_ok es = true).
-  { apply forallb_forall. intros e He. rewrite Forall_forall in HQ. exact (q_enums e (HQ e He)). }
+  { apply forallb_forall. intros e He. rewrite Forall_forall in HQ. rewrite <- enums_ok_eq. exact (q_enums e (HQ e He)). }
   rewrite Ho, He, Hc, Hl. reflexivity.
 Qed.
 
